@@ -138,6 +138,10 @@ func CheckTokenTotalSupply(g *GenesisConfig) error {
 		}
 		seen[block.Address] = true
 		for zts, amount := range block.BalanceList {
+			// the ledger stores the magnitude of an amount
+			if amount.Sign() < 0 {
+				return errors.Errorf("negative balance of %v for %v", zts, block.Address)
+			}
 			total, ok := given[zts]
 			if !ok {
 				given[zts] = new(big.Int).Set(amount)
